@@ -765,8 +765,9 @@ pub fn drive<P: Property>(p: &P, o: &DriveOpts) -> i32 {
         }
         return 2;
     }
-    // inconclusive cases do not change the exit status while they stay rare
-    if inconclusive_count * 1000 > evaluations.max(1) {
+    // inconclusive cases (a watchdog window hit on a loaded machine) do not change the exit status
+    // while they stay rare; beyond 2 % the check has not done its job
+    if inconclusive_count * 50 > evaluations.max(1) {
         eprintln!("CHECK-ERROR {id}: {inconclusive_count} inconclusive cases out of {evaluations}");
         return 2;
     }
